@@ -42,8 +42,10 @@ def _english_cfgs(tier):
                 ("g2-dist", k("{2}", "dist", "FALSE", "TRUE", 45, 1, 1, 420))]
     return [("g1-surplus", k("{1}", "surplus", "FALSE", "TRUE", 45, 3, 1, 140)),
             ("g1-debt", k("{1}", "debt", "FALSE", "TRUE", 5, 3, 1, 140)),
-            ("g2-surplus", k("{2}", "surplus", "FALSE", "TRUE", 45, 3, 2, 620)),
-            ("g2-debt", k("{2}", "debt", "FALSE", "TRUE", 5, 3, 2, 620)),
+            ("g2-surplus", k("{2}", "surplus", "FALSE", "TRUE", 45, 2, 2, 620)),
+            ("g2-surplus-b3", k("{2}", "surplus", "FALSE", "TRUE", 45, 3, 1, 420)),
+            ("g2-debt", k("{2}", "debt", "FALSE", "TRUE", 5, 2, 2, 620)),
+            ("g2-debt-b3", k("{2}", "debt", "FALSE", "TRUE", 5, 3, 1, 420)),
             ("g2-generic", k("{2}", "none", "TRUE", "TRUE", 45, 3, 1, 420)),
             ("g2-surplus-notm", k("{2}", "surplus", "FALSE", "FALSE", 45, 2, 1, 420)),
             ("g1-surplus-notm", k("{1}", "surplus", "FALSE", "FALSE", 45, 2, 1, 140)),
@@ -51,7 +53,7 @@ def _english_cfgs(tier):
             ("g12-surplus", k("{1, 2}", "surplus", "FALSE", "TRUE", 45, 1, 2, 420)),
             ("g12-debt", k("{1, 2}", "debt", "FALSE", "TRUE", 5, 1, 2, 420)),
             ("g2-dist", k("{2}", "dist", "FALSE", "TRUE", 45, 1, 1, 420)),
-            ("g2-surplus-3", k("{2}", "surplus", "FALSE", "TRUE", 35, 2, 2, 620, '{"u1", "u2", "u3"}'))]
+            ("g2-surplus-3", k("{2}", "surplus", "FALSE", "TRUE", 35, 2, 1, 420, '{"u1", "u2", "u3"}'))]
 
 
 def _mc(d, module, name, constants, invariants, constraint, tfile):
@@ -73,7 +75,7 @@ def _produce(d, tier, seed):
     ta = os.path.join(d, "TA.txt")
     mca = [_mc(d, "MC_English", n, k, ENGLISH_INV, "StateBound", ta) for n, k in _english_cfgs(tier)]
     la = os.path.join(d, "a.ndjson")
-    runs, steps = (24, 60) if quick else (300, 120)
+    runs, steps = (24, 60) if quick else (250, 100)
     vlib.run_vh(["english", "--world", "A", "--tfile", ta, "--out", la, "--seed", str(seed), "--runs", str(runs), "--steps", str(steps)], timeout=3000)
     tr = vlib.trace_check(d, "Trace_English", "Trace_English.cfg", la, workers=4, timeout=3000)
     out["A"] = dict(mc=mca, fails=tr["fails"], stats=tr["stats"], distinct=tr.get("distinct"), log="a.ndjson")
@@ -85,7 +87,7 @@ def _produce(d, tier, seed):
     kf = 'Fixed = TRUE  Bidders = {"u1", "u2"}  DepAmts = {10, 25}  Prems = {2, 5}  MaxDeps = 2  Fund = 60  Emit = FALSE'
     mcb.append(_mc(d, "MC_LimitBid", "fixed", kf, "InvTotal InvNonNeg InvCustody", "StateBound", None))
     lb = os.path.join(d, "b.ndjson")
-    runs, steps = (30, 80) if quick else (300, 150)
+    runs, steps = (30, 80) if quick else (250, 120)
     vlib.run_vh(["english", "--world", "B", "--tfile", tb, "--out", lb, "--seed", str(seed), "--runs", str(runs), "--steps", str(steps)], timeout=3000)
     tr = vlib.trace_check(d, "Trace_LimitBid", "Trace_LimitBid.cfg", lb, workers=4, timeout=3000)
     out["B"] = dict(mc=mcb, fails=tr["fails"], stats=tr["stats"], distinct=tr.get("distinct"), log="b.ndjson")
@@ -97,11 +99,10 @@ def _produce(d, tier, seed):
               ("vaults", 'Users2 = {"u1", "u2"}  AppsOn = {"a1"}  Amts = {10}  MaxLockers = 1  MaxVaults = 1  Fund = 100  Emit = TRUE')]
     else:
         kc = [("lockers", 'Users2 = {"u1", "u2"}  AppsOn = {"a1", "a2"}  Amts = {10, 25}  MaxLockers = 2  MaxVaults = 0  Fund = 100  Emit = TRUE'),
-              ("vaults", 'Users2 = {"u1", "u2"}  AppsOn = {"a1", "a2"}  Amts = {10}  MaxLockers = 1  MaxVaults = 1  Fund = 100  Emit = TRUE'),
-              ("both", 'Users2 = {"u1", "u2"}  AppsOn = {"a1", "a2"}  Amts = {10}  MaxLockers = 2  MaxVaults = 1  Fund = 100  Emit = TRUE')]
+              ("vaults", 'Users2 = {"u1", "u2"}  AppsOn = {"a1", "a2"}  Amts = {10}  MaxLockers = 1  MaxVaults = 1  Fund = 100  Emit = TRUE')]
     mcc = [_mc(d, "MC_Locker", n, k, inv, None, tc) for n, k in kc]
     lc = os.path.join(d, "c.ndjson")
-    runs, steps = (30, 80) if quick else (400, 150)
+    runs, steps = (30, 80) if quick else (300, 120)
     vlib.run_vh(["english", "--world", "C", "--tfile", tc, "--out", lc, "--seed", str(seed), "--runs", str(runs), "--steps", str(steps)], timeout=3000)
     tr = vlib.trace_check(d, "Trace_Locker", "Trace_Locker.cfg", lc, workers=4, timeout=3000)
     out["C"] = dict(mc=mcc, fails=tr["fails"], stats=tr["stats"], distinct=tr.get("distinct"), log="c.ndjson")
